@@ -79,6 +79,10 @@ theorem C09_seed_args_user_driven :
     ∀ s ∈ Gen.Rng.sites, s.kind = "seed" →
       (s.argKind = "config" ∨ s.argKind = "loaded" ∨ s.argKind = "param") := by decide
 
+/-- a seed taken from a function PARAMETER is user-driven only if the library never passes it itself: no call site
+inside the package hands a seed to a function that seeds the global generator from its parameter -/
+theorem C09_no_internal_param_seed : Gen.Rng.paramSeedCallSites = [] := by decide
+
 /-- no RNG source outside what the table models (np.random attributes and private generators) -/
 theorem C09_no_unknown_source : Gen.Rng.unknownSources = [] := by decide
 
